@@ -62,9 +62,14 @@ def fidelity(chk, quick):
                     body = rng.choice(NASTY)
                     mode = rng.choice(["plain", "plain", "group", "nomatch", "empty"])
                     attrs = 'check-ai=\'%s\'' % cond if '"' in cond else 'check-ai="%s"' % cond
+                    # a fault is a failure of the run whatever severity the block asks for its diagnostics
+                    if cls == "fault" and bi == target and n % 2 == 0:
+                        attrs += (' severity="warning"', ' severity="HINT"', ' severity="info"')[n % 3]
                     want = body.strip()
                     if mode == "group":
-                        body = "v = [" + body.replace("\n", " ").replace("]", ")") + "]"
+                        # the extract is sent as matched, surrounding blanks included
+                        pad = ("", "  ", " \t")[(n + bi) % 3]
+                        body = "v = [" + pad + body.replace("\n", " ").replace("]", ")") + pad[::-1] + "]"
                         attrs += ' check-ai-pattern="v = \\[(?P<value>[^\\]]*)\\]"'
                         want = body[len("v = ["):-1]
                     elif mode == "nomatch":
@@ -97,13 +102,14 @@ def fidelity(chk, quick):
                 meta[cid] = (cls, reply, fault, blocks, target)
         # missing key: nothing may be sent
         # (the key is BLOCKWATCH_AI_API_KEY and nothing else: an ambient OPENAI_API_KEY, or an empty value, is "missing")
+        sev_of = lambda k: ("", ' severity="warning"', ' severity="Info"')[k % 3]
         ambient = [{}, {"OPENAI_API_KEY": "sk-ambient"}, {"BLOCKWATCH_AI_API_KEY": ""},
                    {"OPENAI_API_KEY": "sk-ambient", "OPENAI_ORG_ID": "org", "OPENAI_PROJECT_ID": "proj"},
                    {"OPENAI_API_KEY": "sk-ambient", "BLOCKWATCH_AI_API_KEY": ""}, {"BLOCKWATCH_AI_MODEL": "m"}]
         for k, amb in enumerate(ambient):
             key = "nokey%d" % k
             cid = "nokey%d" % k
-            cases.append({"id": cid, "files": {"ai.py": '# <block check-ai="c [[%s]]">\nbody\n# </block>\n' % key}, "diff": None,
+            cases.append({"id": cid, "files": {"ai.py": '# <block check-ai="c [[%s]]"%s>\nbody\n# </block>\n' % (key, sev_of(k))}, "diff": None,
                           "args": [], "terminal": True, "env": dict(amb, BLOCKWATCH_AI_API_URL=fake.url)})
             meta[cid] = ("nokey", None, None, [(key, None, None, 1)], 0)
         res = vlib.run_cli(cases, timeout=60)
@@ -145,8 +151,8 @@ def fidelity(chk, quick):
             else:
                 tl = blocks[target][3]
                 mine = [d for d in diags if d["range"]["start"]["line"] == tl]
-                if len(diags) != 1 or len(mine) != 1 or reply not in mine[0]["message"] or \
-                        (mine[0].get("data") or {}).get("ai_message") != reply:
+                quoted = mine and (reply in mine[0].get("message", "") or reply in [v for v in (mine[0].get("data") or {}).values() if isinstance(v, str)])
+                if len(diags) != 1 or len(mine) != 1 or not quoted:
                     chk.violation("reply %r must yield exactly one check-ai diagnostic quoting it on line %d; got %s" % (
                         reply, tl, json.dumps(diags)[:300]), detail)
             # request fidelity for every block of the run
